@@ -5,8 +5,12 @@ mod rng;
 mod sexp;
 mod c02;
 mod c03;
+mod c05;
+mod c06;
 mod c07;
 mod c08;
+mod c10;
+mod c09;
 mod c13;
 mod c14;
 mod c16;
@@ -64,9 +68,14 @@ fn main() {
     let args = parse_args(&argv[1..]);
     match argv[0].as_str() {
         "c02" => c02::run(&args),
+        "c05sfnt" => c05::run_sfnt(&args),
+        "c05font" => c05::run_font(&args),
+        "c06" => c06::run(&args), "c06glyphs" => c06::run_glyphs(&args), "c06e2e" => c06::run_e2e(&args),
         "c07" => c07::run(&args),
         "c08" => c08::run(&args),
         "c08mal" => c08::run_mal(&args),
+        "c10" => c10::run(&args), "c10e2e" => c10::run_e2e(&args),
+        "c09" => c09::run(&args), "c09e2e" => c09::run_e2e(&args),
         "c16" => c16::run(&args),
         "c17" => c17::run(&args),
         "c13lex" => c13::run_lex(&args),
